@@ -63,6 +63,11 @@ def gen_case(rng, ndim=None, inner=None, outer=None, steady=None, const_mat=None
     const_mat = rng.random() < 0.5 if const_mat is None else const_mat
     nsteps = nsteps or rng.randint(1, 3)
     times = np.cumsum([0.0] + [rng.choice([0.125, 0.5, 1.0, 8.0, 64.0]) for _ in range(nsteps)])
+    decimal_grid = rng.random() < 0.25
+    if decimal_grid:
+        # the end of a decimal time grid: dt/substep is not exactly representable, so a sub-step loop that marches in
+        # time (t += dt/substep) instead of counting ends one ulp short of the step end and takes an extra sub-step
+        times = np.linspace(0.0, rng.choice([1.0, 10.0, 12.0]), rng.choice([8, 11, 13]))[-(nsteps + 1):]
     ntime = len(times)
     T0 = dyadic(rng, 300.0, 900.0)
 
@@ -99,7 +104,7 @@ def gen_case(rng, ndim=None, inner=None, outer=None, steady=None, const_mat=None
     return Case(ndim=ndim, r=r, t=t, h=h, nr=nr, nt=nt, nz=nz, inner=inner, outer=outer, steady=steady,
                 times=times, T0=T0, T0field=T0field, inner_data=idata, inner_data2=idata2,
                 outer_data=odata, outer_data2=odata2, mat_T=mat_T, mat_k=mat_k, mat_a=mat_a,
-                film=film, substep=rng.choice([1, 1, 2, 3]),
+                film=film, substep=(rng.choice([4, 5, 10]) if decimal_grid else rng.choice([1, 1, 2, 3])),
                 # slice height of the 1D/2D abstractions: mid-height (the usual choice), the two legal ends
                 # (0.0 is falsy in Python) or anywhere in between; boundary data vary along z
                 plane=(None if ndim == 3 else rng.choice([None, None, 0.0, 1.0, dyadic(rng, 0.0, 1.0)])),   # fraction of h
